@@ -396,10 +396,33 @@ func ruleResultOnlyWithoutError(c *chk.Ctx, d *dispatchModel) {
 		}
 		n++
 		good := false
-		for _, cd := range c.P.CondsWithin(st, d.responses) {
-			if x, eq, isCmp := ir.NilCompare(cd.V); isCmp && eq == cd.Truth {
-				if _, fv, isT := taskFieldLoad(c, x); isT && fv == c.M.TErr {
-					good = true
+		errNil := func(conds []ir.Cond) bool {
+			for _, cd := range conds {
+				if x, eq, isCmp := ir.NilCompare(cd.V); isCmp && eq == cd.Truth {
+					if _, fv, isT := taskFieldLoad(c, x); isT && fv == c.M.TErr {
+						return true
+					}
+				}
+			}
+			return false
+		}
+		good = errNil(c.P.CondsWithin(st, d.responses))
+		// the value may be one result of a private outcome helper: then every return of the
+		// helper that yields a result (not the nil constant) is on its err == nil edge
+		if e, isE := st.Val.(*ssa.Extract); isE && !good {
+			if call, isCall := e.Tuple.(*ssa.Call); isCall {
+				if g := call.Call.StaticCallee(); g != nil && c.P.InRepo[g] && !ir.Exported(g) && e.Index < g.Signature.Results().Len() {
+					all, some := true, false
+					for _, r := range ir.Returns(g) {
+						if ir.IsNilConst(ir.ReturnResult(r, e.Index)) {
+							continue
+						}
+						some = true
+						if !errNil(ir.CondsAt(r.Block())) {
+							all = false
+						}
+					}
+					good = all && some
 				}
 			}
 		}
